@@ -255,10 +255,11 @@ Proof.
   rewrite Hs, flatz_length in L.
   rewrite Hs in D.
   assert (Hl : length (firstn start vals) = start) by (rewrite firstn_length; lia).
-  rewrite D.
-  replace start with (length (firstn start vals)) at 2 by exact Hl.
-  replace stop with (length (firstn start vals) + 2 * length ps) at 3 by lia.
-  apply area_ring_spec.
+  transitivity (area_ring (firstn start vals ++ flatz ps ++ skipn stop vals)
+                          (length (firstn start vals))
+                          (length (firstn start vals) + 2 * length ps) (Some acc)).
+  - rewrite <- D. f_equal; lia.
+  - apply area_ring_spec.
 Qed.
 
 (* ================================================================== *)
@@ -345,23 +346,23 @@ Theorem area_translate : forall ps dx dy,
   closed ps -> shoelace2 (translate dx dy ps) = shoelace2 ps.
 Proof.
   intros ps dx dy Hc. rewrite shoelace2_translate_gen.
-  destruct ps as [|p t]; [reflexivity|].
+  destruct ps as [|p t]; [cbn; lia|].
   rewrite (closed_last _ _ _ Hc). cbn [hd]. lia.
 Qed.
 
 Lemma translate_closed : forall ps dx dy, closed ps -> closed (translate dx dy ps).
 Proof.
   intros ps dx dy Hc. destruct ps as [|p t]; [exact I|].
-  unfold closed. change (translate dx dy (p :: t))
-    with ((fst p + dx, snd p + dy)%Z :: translate dx dy t).
   pose proof (closed_last _ _ p Hc) as HL.
-  change ((fst p + dx, snd p + dy)%Z :: translate dx dy t) with (translate dx dy (p :: t)).
-  unfold translate at 1. rewrite (last_map _ _ _ _ _ p) by discriminate.
+  unfold closed, translate. cbn [map].
+  change ((fst p + dx, snd p + dy)%Z :: map (fun q : Z * Z => (fst q + dx, snd q + dy)%Z) t)
+    with (map (fun q : Z * Z => (fst q + dx, snd q + dy)%Z) (p :: t)).
+  rewrite (last_map _ _ _ (p :: t) p) by discriminate.
   rewrite HL. reflexivity.
 Qed.
 
 (* the code on an unclosed ring: neither the shoelace value nor translation invariant *)
-Definition unclosed_witness : list pt := [(0, 0); (2, 0); (1, 2)]%Z.
+Definition unclosed_witness : list pt := [(0, 0); (2, 1); (1, 2)]%Z.
 
 Theorem area_unclosed_refuted :
   exists ps dx dy,
@@ -370,5 +371,8 @@ Theorem area_unclosed_refuted :
     compute_area (flatz (translate dx dy ps)) [0; 2 * length ps]
       <> compute_area (flatz ps) [0; 2 * length ps].
 Proof.
-  exists unclosed_witness, 1%Z, 0%Z. repeat split; vm_compute; discriminate.
+  exists unclosed_witness, 1%Z, 0%Z. split; [|split].
+  - vm_compute. intro H. discriminate H.
+  - vm_compute. discriminate.
+  - vm_compute. discriminate.
 Qed.
